@@ -58,7 +58,7 @@ func c19Eval(text string) (viol string, nested bool) {
 func TestC19(t *testing.T) {
 	r := kit.New(t, "C19")
 	defer r.Finish()
-	r.SetRule("parsed G3 executable documents (all three selection kinds at every depth and order, directives and arguments on each, nested values, fragment variables) and the repository's example queries. " +
+	r.SetRule("parsed G3 executable documents (all three selection kinds at every depth and order, directives and arguments on each, nested values, fragment variables; in half of them a third of all names and strings replaced by the member names of the JSON encoding itself: Alias, TypeCondition, Name, SelectionSet, ...) and the repository's example queries. " +
 		"oracle: json.Unmarshal(json.Marshal(doc)) succeeds and the projection (positions and comments excluded) is equal; a second trip is stable. non-trivial = document with a fragment spread or inline fragment; distinct by text")
 	replay := func(raw json.RawMessage) string {
 		var c inputCase
@@ -86,6 +86,10 @@ func TestC19(t *testing.T) {
 	}
 	r.Rapid("doc", kit.Pick(4000, 300000), func(rt *rapid.T) {
 		doc := gen.QueryDoc().Draw(rt, "doc")
+		if rapid.Bool().Draw(rt, "jsonnames") {
+			// names spelt like the member names of the JSON encoding itself
+			gen.RenameDoc(rt, doc, gen.JSONMemberNames, 3)
+		}
 		text := gen.JoinPlain(gen.QueryLexemes(doc, gen.Rand(rt)))
 		r.Begin("doc", func() interface{} { return inputCase{text} })
 		defer r.End()
